@@ -10,6 +10,7 @@ import Driver.Assorter
 import Driver.Status
 import Driver.IrvBallot
 import Driver.Dominion
+import Driver.Manifest
 open Lean Shangrla Shangrla.Drv
 
 def dispatch (g op : String) (a : Json) : R Json :=
@@ -21,6 +22,7 @@ def dispatch (g op : String) (a : Json) : R Json :=
   | "status" => StatusH.handle op a
   | "irvballot" => IrvBallotH.handle op a
   | "dominion" => DominionH.handle op a
+  | "manifest" => ManifestH.handle op a
   | _ => throw s!"unknown group {g}"
 
 def handleLine (line : String) : String :=
